@@ -296,8 +296,13 @@ def atoms_object_case(draw):
     api = draw(st.sampled_from(_OBJ_APIS))
     if api in ("Potential.nonperiodic", "CrystalPotential"):
         atoms = draw(lattice_atoms(lattices=["ortho"], max_atoms=3))
-    elif api in ("StructureFactor", "BlochWaves"):
+    elif api == "StructureFactor":
         atoms = draw(lattice_atoms(max_atoms=2))
+    elif api == "BlochWaves":
+        # hexagonal cells left out: for some cell parameters BlochWaves asks the structure factor for
+        # hkl outside its grid ("invalid entry in coordinates array", abtem/bloch/utils.py ravel_hkl) -
+        # a Bloch-wave defect (C26 territory) that has nothing to do with the caller's atoms
+        atoms = draw(lattice_atoms(lattices=["ortho", "ortho", "tiny", "fcc", "bcc"], max_atoms=2))
     else:
         atoms = draw(lattice_atoms(max_atoms=3))
     return {
